@@ -52,7 +52,9 @@ func c11r1(r *R) {
 	serve, _, sc := serveLoop(r)
 	// serveConn: defer conn.Close() before anything that can block or fail
 	o := r.Ob("C11.R1", "defer-close-conn:"+funcName(sc)).At(sc.Pos())
-	d := deferOf(sc, func(d *ssa.Defer) bool { return calleeName(&d.Call) == "(net.Conn).Close" && c.Expr(d.Call.Value) == "p1" })
+	d := deferOf(sc, func(d *ssa.Defer) bool {
+		return calleeName(&d.Call) == "(net.Conn).Close" && c.Expr(d.Call.Value) == "p1"
+	})
 	if o.Check(d != nil, "no `defer conn.Close()` on the accepted connection in %s", funcName(sc)) {
 		o.AtI(d)
 		o.Check(d.Block().Index == 0, "the deferred Close of the accepted connection is conditional")
@@ -76,7 +78,9 @@ func c11r1(r *R) {
 		}
 	}
 	o3 := r.Ob("C11.R1", "defer-close-listener:"+funcName(serve)).At(serve.Pos())
-	d3 := deferOf(serve, func(d *ssa.Defer) bool { return calleeName(&d.Call) == "(net.Listener).Close" && c.Expr(d.Call.Value) == "p1" })
+	d3 := deferOf(serve, func(d *ssa.Defer) bool {
+		return calleeName(&d.Call) == "(net.Listener).Close" && c.Expr(d.Call.Value) == "p1"
+	})
 	if o3.Check(d3 != nil, "Serve does not defer ln.Close()") {
 		o3.AtI(d3).Check(d3.Block().Index == 0, "deferred listener Close is conditional")
 	}
@@ -326,8 +330,10 @@ func c11r5(r *R) {
 		"conn.Close": func(d *ssa.Defer) bool {
 			return calleeName(&d.Call) == "(net.Conn).Close" && c.Expr(d.Call.Value) == "p0.conn"
 		},
-		"closeAllStreamsOnConnClose": func(d *ssa.Defer) bool { return calleeName(&d.Call) == "(*http2.serverConn).closeAllStreamsOnConnClose" },
-		"stopShutdownTimer":          func(d *ssa.Defer) bool { return calleeName(&d.Call) == "(*http2.serverConn).stopShutdownTimer" },
+		"closeAllStreamsOnConnClose": func(d *ssa.Defer) bool {
+			return calleeName(&d.Call) == "(*http2.serverConn).closeAllStreamsOnConnClose"
+		},
+		"stopShutdownTimer": func(d *ssa.Defer) bool { return calleeName(&d.Call) == "(*http2.serverConn).stopShutdownTimer" },
 		"close(doneServing)": func(d *ssa.Defer) bool {
 			return calleeName(&d.Call) == "builtin.close" && c.Expr(d.Call.Args[0]) == "p0.doneServing"
 		},
@@ -408,16 +414,16 @@ func chanOpsIn(c *Ctx, fn *ssa.Function) []chanOp {
 
 // reviewed rendez-vous / bounded operations, keyed by function + kind + channel expression
 var reviewedChanOps = map[string]string{
-	"(*proxyserver.Server).serveConn|recv|(context.Context).Done(context.WithCancel(context.Background())#0)":    "waits until the HTTP/1.1 server closes the wrapper (C11.R2: Close fires Done; D6 fix: a failed hand-off closes the conn)",
-	"(*proxyserver.Server).Serve$1|recv|(context.Context).Done(outer(p0).ctx)":                                   "shutdown watcher: one per Serve call, ends when the server context ends",
-	"(*certwatcher.CertWatcher).Start|recv|(context.Context).Done(p1)":                                           "process-lifetime watcher, not per connection",
-	"(*http2.serverConn).readFrames|recv|make(chan struct{},0)":                                                  "gate: readFrames waits until the serve loop has processed the frame; the select before it has a doneServing case",
-	"(*http2.serverConn).readPreface$1|send|outer(make(chan error,1))":                                           "buffered (cap 1), exactly one send per goroutine",
-	"(*http2.responseWriter).CloseNotify$1|send|outer(make(chan bool,1))":                                        "buffered (cap 1), one send",
-	"(*http2.serverConn).writeFrameAsync|send|p0.wroteFrameCh":                                                   "serve loop always receives wroteFrameCh while writingFrameAsync (it does not exit before: see serve's shutdown condition)",
-	"(*certwatcher.CertWatcher).Watch|select|recv p0.watcher.Errors | recv p0.watcher.Events":                    "process-lifetime watcher; returns when fsnotify closes its channels (Start closes the watcher when the context ends)",
-	"(*http2.serverConn).readFrames$1|send|outer(make(chan struct{},0))":                                         "gateDone is called by the serve loop for the frame it just received; readFrames is then in the select on gate|doneServing",
-	"(*http2.serverConn).startPush|send|p1.done":                                                                 "done channels come from errChanPool (cap 1) and are sent to at most once per message",
+	"(*proxyserver.Server).serveConn|recv|(context.Context).Done(context.WithCancel(context.Background())#0)": "waits until the HTTP/1.1 server closes the wrapper (C11.R2: Close fires Done; D6 fix: a failed hand-off closes the conn)",
+	"(*proxyserver.Server).Serve$1|recv|(context.Context).Done(outer(p0).ctx)":                                "shutdown watcher: one per Serve call, ends when the server context ends",
+	"(*certwatcher.CertWatcher).Start|recv|(context.Context).Done(p1)":                                        "process-lifetime watcher, not per connection",
+	"(*http2.serverConn).readFrames|recv|make(chan struct{},0)":                                               "gate: readFrames waits until the serve loop has processed the frame; the select before it has a doneServing case",
+	"(*http2.serverConn).readPreface$1|send|outer(make(chan error,1))":                                        "buffered (cap 1), exactly one send per goroutine",
+	"(*http2.responseWriter).CloseNotify$1|send|outer(make(chan bool,1))":                                     "buffered (cap 1), one send",
+	"(*http2.serverConn).writeFrameAsync|send|p0.wroteFrameCh":                                                "serve loop always receives wroteFrameCh while writingFrameAsync (it does not exit before: see serve's shutdown condition)",
+	"(*certwatcher.CertWatcher).Watch|select|recv p0.watcher.Errors | recv p0.watcher.Events":                 "process-lifetime watcher; returns when fsnotify closes its channels (Start closes the watcher when the context ends)",
+	"(*http2.serverConn).readFrames$1|send|outer(make(chan struct{},0))":                                      "gateDone is called by the serve loop for the frame it just received; readFrames is then in the select on gate|doneServing",
+	"(*http2.serverConn).startPush|send|p1.done":                                                              "done channels come from errChanPool (cap 1) and are sent to at most once per message",
 }
 
 func c11r6(r *R) {
